@@ -211,7 +211,32 @@ class Docs:
             n += 1
             if n > 20:
                 raise ValueError("ref loop")
-        return {} if s is True else s
+        if s is True:
+            return {}
+        if isinstance(s, dict) and s.get("allOf"):
+            # the conjunction of object branches, seen as one object schema (union of properties, all required keys)
+            m = {k: v for k, v in s.items() if k != "allOf"}
+            m.setdefault("type", "object")
+            props, req = dict(m.get("properties", {})), list(m.get("required", []))
+            for b in s["allOf"]:
+                rb = self.resolve(b)
+                for k, v in rb.get("properties", {}).items():
+                    if k in props and isinstance(props[k], dict) and isinstance(v, dict):
+                        mm = dict(props[k])
+                        mm.update(v)
+                        props[k] = mm
+                    else:
+                        props[k] = v
+                req += [k for k in rb.get("required", []) if k not in req]
+                if "additionalProperties" in rb and "additionalProperties" not in m:
+                    m["additionalProperties"] = rb["additionalProperties"]
+            m["properties"] = props
+            if req:
+                m["required"] = req
+            return m
+        if isinstance(s, dict) and s.get("anyOf") and "type" not in s:
+            return self.resolve(s["anyOf"][0])
+        return s
 
     # ---- numbers
     def num_bounds(self, s):
@@ -477,7 +502,8 @@ VERD = {"ACC": 0, "REJ": 1, "PANIC": 2, "FATAL": 2}
 class Case:
     """One schema (root + $defs in one file), options, and documents: [{'doc': json value, 'cls': tag, 'path': ...}]."""
 
-    def __init__(self, cid, schema, docs, minsized=False, only_models=False, caps=None, extra_imports=False, wire="json", fam=""):
+    def __init__(self, cid, schema, docs, minsized=False, only_models=False, caps=None, extra_imports=False, wire="json", fam="",
+                 extra_files=None, no_model=False, resolve_ext=None):
         self.cid = cid
         self.schema = schema
         self.docs = docs
@@ -487,6 +513,9 @@ class Case:
         self.extra_imports = extra_imports
         self.wire = wire
         self.fam = fam
+        self.extra_files = extra_files or {}      # other schema files of the case: relative path -> text
+        self.no_model = no_model                  # outside the Coq model (cross-file references): implementation-only observations
+        self.resolve_ext = resolve_ext or []
         # filled by run_cases
         self.gen_ok = None
         self.build_ok = None
@@ -497,11 +526,11 @@ class Case:
 
     def cfg(self):
         return {"min_sized_ints": self.minsized, "only_models": self.only_models, "capitalizations": self.caps, "tags": ["json", "yaml", "mapstructure"],
-                "extra_imports": self.extra_imports,
+                "extra_imports": self.extra_imports, "resolve_extensions": self.resolve_ext,
                 "mappings": [{"id": self.schema.get("$id", ""), "root": "Root", "package": self.cid, "output": self.cid + "/gen.go"}]}
 
     def replay_obj(self, di=None):
-        o = {"kind": "kitchen", "cfg": self.cfg(), "files": {"s.json": json.dumps(self.schema)}, "argv": ["s.json"], "family": self.fam}
+        o = {"kind": "kitchen", "cfg": self.cfg(), "files": dict({"s.json": json.dumps(self.schema)}, **self.extra_files), "argv": ["s.json"], "family": self.fam}
         if di is not None:
             d = self.docs[di]
             o.update({"doc": json.dumps(d["doc"]), "class": d.get("cls"), "path": list(d.get("path", ())), "impl": d.get("obs"),
@@ -517,7 +546,7 @@ def run_cases(ctx, cases, name, rows_fn=None, chunk=40):
     for c in cases:
         jobs = [{"t": d.get("t", "Root"), "doc": d["raw"] if "raw" in d else json.dumps(d["doc"]), "wire": d.get("wire", c.wire), "prior": d.get("prior", "")}
                 for d in c.docs]
-        c.batch_case = b.add({"id": c.cid, "cfg": c.cfg(), "files": {"s.json": json.dumps(c.schema)}, "argv": ["s.json"], "jobs": jobs})
+        c.batch_case = b.add({"id": c.cid, "cfg": c.cfg(), "files": dict({"s.json": json.dumps(c.schema)}, **c.extra_files), "argv": ["s.json"], "jobs": jobs})
     b.run()
     names = set()
     for c in cases:
@@ -539,7 +568,8 @@ def run_cases(ctx, cases, name, rows_fn=None, chunk=40):
     header = ("From GJS Require Import Base Bounds IntSize Regex Schema GoType Ident Gen Exec Valid RunCore.\n"
               "Definition T : list crow := %s.\nDefinition FT : list (fmtk * str) := [%s].\n" % (table_term(rows), "; ".join(ft)))
     import concurrent.futures as cf
-    groups = [cases[i:i + chunk] for i in range(0, len(cases), chunk)]
+    modelled = [c for c in cases if not c.no_model]
+    groups = [modelled[i:i + chunk] for i in range(0, len(modelled), chunk)]
 
     def one(gi):
         grp = groups[gi]
